@@ -37,6 +37,9 @@ CPP = 'src/adapters.cpp'
 # (variant id, file, old, new, expected rule prefix)
 VARIANTS = {
     'C01': [
+        ('serialize-non-ascii', 'replicat/repository.py', "        return bytes(string, 'ascii')", "        return bytes(string, 'utf-8', 'surrogateescape')", 'C01.R11'),
+        ('finish-empty-by-truthy-path', 'replicat/repository.py', '            for file_path, digests in files_digests.items():\n                if not digests:', '            for file_path, digests in files_digests.items():\n                if not file_path:', 'C01.R9'),
+        ('record-done-before-exists', 'replicat/repository.py', '                exists = await self._exists(chunk.location)', '                _chunk_done(chunk)\n                exists = await self._exists(chunk.location)', 'C01.R10'),
         ('dedup-dropped', R, 'return list(dict.fromkeys(flattened))', 'return list(flattened)', 'C01.R1'),
         ('counter-not-advanced', R, '                            state.bytes_with_padding += padding_length\n', '', 'C01.R2'),
         ('sort-by-index', R, "key=lambda x: x['counter'])", "key=lambda x: x['index'])", 'C01.R3'),
@@ -48,6 +51,8 @@ VARIANTS = {
         ('early-clear', R, "            for future in concurrent.futures.as_completed(writer_futures):\n                future.result()\n", "", 'C01.R8'),
     ],
     'C02': [
+        ('upload-other-payload', 'replicat/repository.py', '                chunk = _SnapshotChunk(\n                    contents=encrypted_contents,', '                chunk = _SnapshotChunk(\n                    contents=bytes(len(encrypted_contents)),', 'C02.R7'),
+        ('chunks-deleted-first', 'replicat/repository.py', '        with finished_snapshots_tracker:\n            await asyncio.gather(*map(_delete_snapshot, snapshots_locations))\n', '        with finished_snapshots_tracker:\n            asyncio.ensure_future(asyncio.gather(*map(_delete_snapshot, snapshots_locations)))\n', 'C02.R9'),
         ('skip-before-keep', R, "            else:\n                chunks_to_keep.update(body['chunks'])", "            elif body['data'] is not None:\n                chunks_to_keep.update(body['chunks'])", 'C02.R1'),
         ('clean-with-filter', R, "y async for _, x in self._load_snapshots() for y in x['chunks']", "y async for _, x in self._load_snapshots(snapshot_regex='^') for y in x['chunks']", 'C02.R2'),
         ('loader-swallows', R, "            return self._download_snapshot_threadsafe(path, digest, loop=loop)", "            try:\n                return self._download_snapshot_threadsafe(path, digest, loop=loop)\n            except exceptions.ReplicatError:\n                return None", 'C02.R3'),
@@ -57,6 +62,7 @@ VARIANTS = {
         ('memo-exists', R, "                exists = await self._exists(chunk.location)", "                exists = chunk.location in getattr(self, '_seen', ()) or await self._exists(chunk.location)", 'C02.R8'),
     ],
     'C03': [
+        ('b2-exists-403-is-false', 'replicat/backends/b2.py', '            if e.response.status_code == httpx.codes.NOT_FOUND:\n                return False\n            raise\n        else:\n            return True', '            if e.response.status_code in (httpx.codes.NOT_FOUND, httpx.codes.FORBIDDEN):\n                return False\n            raise\n        else:\n            return True', 'C03.R6'),
         ('handler-forgets-raise', R, "            except:\n                abort.set()\n                raise\n            finally:", "            except:\n                abort.set()\n            finally:", 'C03.R1'),
         ('producer-not-awaited', R, "            finally:\n                await chunk_producer\n", "            finally:\n                pass\n", 'C03.R1'),
         ('merged-deletes', R, "            await asyncio.gather(*map(_delete_snapshot, snapshots_locations))", "            await asyncio.gather(*map(_delete_snapshot, snapshots_locations), *map(_delete_chunk, chunks_to_delete))", 'C03.R2'),
@@ -73,12 +79,14 @@ VARIANTS = {
         ('result-dropped', R, "            for future in concurrent.futures.as_completed(writer_futures):\n                future.result()\n", "", 'C04.R4'),
     ],
     'C05': [
+        ('log-to-stdout', 'replicat/__main__.py', '    logging.basicConfig(level=level)', '    logging.basicConfig(level=level, stream=sys.stdout)', 'C05.R4'),
         ('plaintext-chunk', R, "                    encrypted_contents = self.props.encrypt(\n                        output_chunk, self.props.derive_shared_subkey(digest)\n                    )", "                    encrypted_contents = output_chunk", 'C05.R1'),
         ('plain-name', R, "            digest_mac = self.props.mac(digest)\n            digest_mac_mac = self.props.mac(digest_mac)", "            digest_mac = digest\n            digest_mac_mac = self.props.mac(digest_mac)", 'C05.R1'),
         ('nonce-from-data', A, "        nonce = os.urandom(self._nonce_bytes)", "        nonce = hashlib.sha256(data).digest()[: self._nonce_bytes]", 'C05.R2'),
         ('data-under-shared-key', R, "                self.serialize(snapshot_body['data']), self.props.userkey\n            )", "                self.serialize(snapshot_body['data']), self.props.derive_shared_subkey(b'')\n            )", 'C05.R3'),
     ],
     'C06': [
+        ('decoded-body-memoised', 'replicat/repository.py', '    def _decrypt_snapshot_body(self, contents):', '    @functools.lru_cache(maxsize=None)\n    def _decrypt_snapshot_body(self, contents):', 'C06.R6'),
         ('unlock-precondition-dropped', R, "            if password is None or key is None:\n                raise exceptions.ReplicatError(\n                    'Both password and key are needed to unlock this repository'\n                )\n", "", 'C06.R1'),
         ('refusal-dropped', R, "                if (snapshot_data := body['data']) is None:\n                    raise exceptions.ReplicatError(\n                        f'Cannot delete snapshot {name} (different key)'\n                    )\n", "                snapshot_data = body['data']\n", 'C06.R2'),
         ('restore-unfiltered', R, "snapshots = [x async for _, x in snapshots_gen if x['data'] is not None]", "snapshots = [x async for _, x in snapshots_gen]", 'C06.R3'),
@@ -100,6 +108,7 @@ VARIANTS = {
         ('delete-swallowed', R, "            logger.info('Deleting %s', location)\n            return await self._maybe_run_in_executor(\n                self.backend.delete, location, executor=executor\n            )", "            logger.info('Deleting %s', location)\n            try:\n                return await self._maybe_run_in_executor(\n                    self.backend.delete, location, executor=executor\n                )\n            except Exception:\n                logger.warning('delete failed')", 'C08.R5'),
     ],
     'C09': [
+        ('digest-cleared-before-results', 'replicat/repository.py', '            for future in concurrent.futures.as_completed(writer_futures):\n                future.result()\n\n            for file_path in referenced_paths:', '            for file_path in []:\n                pass\n\n            for file_path in referenced_paths:', 'C09.R7'),
         ('exists-without-slot', R, "                exists = await self._exists(chunk.location)", "                exists = await self._maybe_run_in_executor(self.backend.exists, chunk.location)", 'C09.R1'),
         ('release-not-in-finally', R, "        slot = await self._slots.get()\n        try:\n            yield slot\n        finally:\n            self._slots.put_nowait(slot)", "        slot = await self._slots.get()\n        yield slot\n        self._slots.put_nowait(slot)", 'C09.R2'),
         ('nested-acquisition', R, "                    async with self._acquire_slot() as slot:\n                        length = len(chunk.contents)", "                    async with self._acquire_slot() as slot:\n                        await self._exists(chunk.location)\n                        length = len(chunk.contents)", 'C09.R3'),
@@ -111,6 +120,7 @@ VARIANTS = {
         ('extra-token', R, "for slot in range(2, concurrent + 2):", "for slot in range(2, concurrent + 3):", 'C09.R8'),
     ],
     'C10': [
+        ('zero-cut-emitted', 'replicat/utils/adapters.py', '                if not pos:\n                    break\n', '                if pos is None:\n                    break\n', 'C10.R5'),
         ('delete-other-prefix', A, "                del buffer[:pos]", "                del buffer[: pos - 1]", 'C10.R4'),
         ('state-on-self', A, "        buffer = bytearray()\n        it = iter(chunk_iterator)", "        buffer = self._carry = getattr(self, '_carry', bytearray())\n        it = iter(chunk_iterator)", 'C10.R3'),
         ('final-by-truthiness', A, "bool(next_chunk is None)", "not next_chunk", 'C10.R4'),
@@ -124,6 +134,7 @@ VARIANTS = {
         ('cpp-position-state', CPP, "    uint64_t max_value = 0;", "    uint64_t max_value = 0;\n    min_length = min_length + 0;", 'C11.R1'),
     ],
     'C12': [
+        ('stale-bucket-kept', 'replicat/backends/b2.py', '                    self._bucket = utils.DefaultNamespace(\n                        id=bucket_id, name=bucket_name\n                    )\n                    return self._bucket', '                    self._cached_bucket = self._bucket = utils.DefaultNamespace(\n                        id=bucket_id, name=bucket_name\n                    )\n                    return self._cached_bucket', None),
         ('undecorated-exists', L, "    @backoff_on_oserror\n    def exists(self, name):", "    def exists(self, name):", 'C12.R1'),
         ('max-tries-removed', S, "    max_tries=4,\n    giveup=_check_403,\n)", "    giveup=_check_403,\n)", 'C12.R1'),
         ('narrow-handler', B, "                content=utils.aiter_chunks(stream, chunk_size=chunk_size),\n            )\n        except:", "                content=utils.aiter_chunks(stream, chunk_size=chunk_size),\n            )\n        except httpx.HTTPError:", 'C12.R2'),
@@ -132,6 +143,8 @@ VARIANTS = {
         ('decorators-swapped', B, "    @utils.requires_auth\n    @backoff_reauth\n    async def delete(self, name):", "    @backoff_reauth\n    @utils.requires_auth\n    async def delete(self, name):", 'C12.R4'),
     ],
     'C13': [
+        ('tmp-listed', 'replicat/backends/local.py', "                    if path.endswith('.tmp'):\n                        continue\n", "                    if path.endswith('.temp'):\n                        continue\n", 'C13.R6'),
+        ('b2-exists-true-on-error', 'replicat/backends/b2.py', '            if e.response.status_code == httpx.codes.NOT_FOUND:\n                return False\n            raise\n        else:\n            return True', '            if e.response.status_code == httpx.codes.NOT_FOUND:\n                return False\n            return True\n        else:\n            return True', 'C13.R7'),
         ('token-never-assigned', S, "                elif tag == 'NextContinuationToken':\n                    continuation_token = element.text\n", "", 'C13.R2'),
         ('b2-break-on-empty', B, "            if decoded['nextFileName'] is None:\n                break", "            if not decoded['files']:\n                break", 'C13.R2'),
         ('prefix-first-page-only', S, "        if prefix:\n            query['prefix'] = prefix", "        if prefix and continuation_token is None:\n            query['prefix'] = prefix", 'C13.R3'),
@@ -140,6 +153,9 @@ VARIANTS = {
         ('signature-deviates', L, "    def download_stream(self, name, stream, chunk_size=DEFAULT_STREAM_CHUNK_SIZE):", "    def download_stream(self, name, chunk_size, stream=None):", 'C13.R1'),
     ],
     'C14': [
+        ('local-time-stamp', 'replicat/repository.py', '        now = datetime.utcnow()', '        now = datetime.now()', 'C14.R8'),
+        ('nonce-split-mismatch', 'replicat/utils/adapters.py', '        nonce, ciphertext = data[: self._nonce_bytes], data[self._nonce_bytes :]', '        nonce, ciphertext = data[:12], data[12:]', 'C14.R7'),
+        ('upgrade-on-read', 'replicat/repository.py', "            else:\n                body['data'] = self.deserialize(data)\n\n        return body", "            else:\n                body['data'] = self.deserialize(data)\n                body['data']['utc_timestamp'] = body['data']['utc_timestamp'][:19]\n\n        return body", 'C14.R6'),
         ('default-separators', R, "            object, separators=(',', ':'), default=self.default_serialization_hook", "            object, default=self.default_serialization_hook", 'C14.R3'),
         ('legacy-fallback-removed', R, "        try:\n            ns = (metadata['st_atime_ns'], metadata['st_mtime_ns'])\n        except KeyError:\n            os.utime(path, times=(metadata['st_atime'], metadata['st_mtime']))\n        else:\n            os.utime(path, ns=ns)", "        ns = (metadata['st_atime_ns'], metadata['st_mtime_ns'])\n        os.utime(path, ns=ns)", 'C14.R4'),
         ('table-under-userkey', R, "                    self.props.derive_shared_subkey(\n                        self.props.hash_digest(encrypted_private_data)\n                    ),\n                ),\n                'data': encrypted_private_data,", "                    self.props.userkey,\n                ),\n                'data': encrypted_private_data,", 'C14.R1'),
@@ -170,6 +186,7 @@ VARIANTS = {
         ('kdf-truncates', A, "            context, salt=params, digest_size=self.digest_size, key=key_material\n        ).digest()", "            context, salt=params, digest_size=self.digest_size, key=key_material[:64]\n        ).digest()", 'C17.R6'),
     ],
     'C18': [
+        ('loaded-result-dropped-when-falsy', 'replicat/repository.py', '            if (body := await task) is None:\n                continue', '            if not (body := await task):\n                continue', 'C18.R6'),
         ('cache-unverified', R, "                if self.props.hash_digest(contents) != expected_digest:\n                    logger.info('Cached copy of %s is damaged, discarding it', path)\n                    self._delete_cached(path)\n                    contents = None", "                pass", 'C18.R1'),
         ('store-before-compare', R, "            contents = self._download_threadsafe(path, loop=loop)\n", "            contents = self._download_threadsafe(path, loop=loop)\n            if self._cache_directory is not None:\n                self._store_cached(path, contents)\n", 'C18.R2'),
         ('delete-cached-unguarded', R, "            await self._delete(location)\n            if self._cache_directory is not None:\n                self._delete_cached(location)\n            finished_snapshots_tracker.update()", "            await self._delete(location)\n            self._delete_cached(location)\n            finished_snapshots_tracker.update()", 'C18.R4'),
